@@ -13,6 +13,7 @@
 
 #include <assert.h>
 #include <errno.h>
+#include <math.h>
 
 #include "libyang.h"
 #include "ly_common.h"
@@ -395,7 +396,9 @@ inv_siblings(const struct lyd_node *first, const struct lyd_node *parent, struct
                 break;
             }
         }
-        if (lyd_find_sibling_first(first, n, &match) || (match != scan)) {
+        /* with duplicate instances (not yet validated data) any equal instance is a correct answer */
+        if (lyd_find_sibling_first(first, n, &match) || ((match != scan) &&
+                !(match && (match->schema == n->schema) && (!(n->schema->nodetype & (LYS_LIST | LYS_LEAFLIST)) || !lyd_compare_single(match, n, 0))))) {
             if ((n->schema->nodetype == LYS_LIST) && (n->schema->flags & LYS_KEYLESS)) {
                 /* keyless lists are never found */
             } else {
@@ -557,14 +560,17 @@ xval_out(struct sbuf *o, int k, LY_ERR rc, const struct ly_ctx *ctx, struct ly_s
     }
 }
 
-#include <math.h>
-
 /* ---------- one command ---------- */
+static void run_cmd2(char **w, int nw, struct sbuf *o);
+
+static int last_ok = 1;
+
 static void
 run_cmd(char *cmd, struct sbuf *o)
 {
-    char *w[16];
+    char *wbuf[17], **w = wbuf;
     int nw = 0;
+    size_t start = o->n;
 
     for (char *p = strtok(cmd, " "); p && (nw < 16); p = strtok(NULL, " ")) {
         w[nw++] = p;
@@ -573,6 +579,26 @@ run_cmd(char *cmd, struct sbuf *o)
         sb_str(o, "?");
         return;
     }
+    if (!strcmp(w[0], "ifok")) {
+        /* run the rest only if the previous command returned 0 (otherwise print "skip", state unchanged) */
+        if (!last_ok) {
+            sb_str(o, "skip");
+            return;
+        }
+        ++w;
+        --nw;
+        if (!nw) {
+            sb_str(o, "?");
+            return;
+        }
+    }
+    run_cmd2(w, nw, o);
+    last_ok = (o->n > start) && (o->s[start] == '0') && ((o->n == start + 1) || (o->s[start + 1] == ' ') || (o->s[start + 1] == '!'));
+}
+
+static void
+run_cmd2(char **w, int nw, struct sbuf *o)
+{
 #define NEED(n) if (nw < (n)) { sb_str(o, "?args"); return; }
 
     if (!strcmp(w[0], "ctx")) {
@@ -993,11 +1019,18 @@ run_cmd(char *cmd, struct sbuf *o)
         }
         lyd_free_all(T[d]);
         T[d] = NULL;
-        if (n == T[t]) {
-            T[t] = n->next;
+        {
+            struct lyd_node *nx = n->next;
+            LY_ERR urc = lyd_unlink_tree(n);
+
+            sb_fmt(o, "%d", (int)urc);
+            if (!urc) {
+                if (n == T[t]) {
+                    T[t] = nx;
+                }
+                T[d] = n;
+            }
         }
-        sb_fmt(o, "%d", (int)lyd_unlink_tree(n));
-        T[d] = n;
         fix_first(t);
     } else if (!strcmp(w[0], "ins")) {
         /* ins <child|sibling|before|after> t<k>#i t<src>   (src slot gives up its first tree) */
@@ -1006,7 +1039,7 @@ run_cmd(char *cmd, struct sbuf *o)
         struct lyd_node *anchor = node_at(w[2]), *n = T[s], *first = NULL;
         LY_ERR rc = LY_EINVAL;
 
-        if (!n || (!anchor && (w[1][0] != 's'))) {
+        if (!n || !anchor) {
             sb_str(o, "-");
             return;
         }
@@ -1054,6 +1087,30 @@ run_cmd(char *cmd, struct sbuf *o)
 
         sb_fmt(o, "%d", (int)rc);
         fix_first(slot_t(w[1]));
+        free(v);
+    } else if (!strcmp(w[0], "chgpath") || !strcmp(w[0], "freepath")) {
+        /* chgpath t<k> hexpath hexval | freepath t<k> hexpath */
+        NEED(3);
+        int t = slot_t(w[1]);
+        char *p = arg_str(w[2]), *v = nw > 3 ? arg_str(w[3]) : NULL;
+        struct lyd_node *m = NULL;
+        LY_ERR rc = lyd_find_path(T[t], p, 0, &m);
+
+        if (rc || !m) {
+            sb_str(o, "-");
+        } else if (w[0][0] == 'c') {
+            rc = (m->schema->nodetype & LYD_NODE_TERM) ? lyd_change_term(m, v) : LY_EINVAL;
+            sb_fmt(o, "%d", (int)rc);
+            fix_first(t);
+        } else {
+            if (m == T[t]) {
+                T[t] = m->next;
+            }
+            lyd_free_tree(m);
+            fix_first(t);
+            sb_str(o, "0");
+        }
+        free(p);
         free(v);
     } else if (!strcmp(w[0], "newmeta")) {
         /* newmeta t<k>#i c<k> <module> <name> hexval */
@@ -1128,6 +1185,124 @@ run_cmd(char *cmd, struct sbuf *o)
             sb_str(o, "ok");
         }
         free(why.s);
+    } else if (!strcmp(w[0], "paths")) {
+        /* paths t<k> : for every node, lyd_path -> lyd_find_path and lyd_find_xpath must return exactly that node */
+        NEED(2);
+        int t = slot_t(w[1]);
+        long idx = 0;
+
+        for (struct lyd_node *n = T[t]; n; n = dfs_next(n), ++idx) {
+            char *p;
+            struct lyd_node *m = NULL;
+            struct ly_set *set = NULL;
+            LY_ERR rc;
+            int bothq = 0;
+
+            if (!n->schema) {
+                continue;
+            }
+            p = lyd_path(n, LYD_PATH_STD, NULL, 0);
+            if (!p) {
+                sb_fmt(o, "BAD node %ld: lyd_path failed", idx);
+                return;
+            }
+            bothq = strchr(p, '\'') && strchr(p, '"');
+            rc = lyd_find_path(T[t], p, 0, &m);
+            if (rc || (m != n)) {
+                /* position predicates of key-less lists address the first match only when positions differ */
+                sb_fmt(o, "BAD%s node %ld: lyd_find_path rc=%d found=%ld path=", bothq ? " both-quotes" : "", idx, (int)rc, m ? node_index(t, m) : -1L);
+                sb_hex(o, p, strlen(p));
+                free(p);
+                return;
+            }
+            rc = lyd_find_xpath(T[t], p, &set);
+            if (rc || !set || (set->count != 1) || (set->dnodes[0] != n)) {
+                sb_fmt(o, "BAD%s node %ld: lyd_find_xpath rc=%d count=%u path=", bothq ? " both-quotes" : "", idx, (int)rc, set ? set->count : 0);
+                sb_hex(o, p, strlen(p));
+                ly_set_free(set, NULL);
+                free(p);
+                return;
+            }
+            ly_set_free(set, NULL);
+            free(p);
+        }
+        sb_str(o, "ok");
+    } else if (!strcmp(w[0], "rebuild")) {
+        /* rebuild t<k> c<k> : for every node, lyd_new_path(path, value) in an empty tree must create the node and its
+         * ancestors (compared with a parents-duplicate), and creating it again must report LY_EEXIST */
+        NEED(3);
+        int t = slot_t(w[1]), c = slot_c(w[2]);
+        long idx = 0;
+
+        for (struct lyd_node *n = T[t]; n; n = dfs_next(n), ++idx) {
+            char *p;
+            const char *val = NULL;
+            struct lyd_node *tree = NULL, *nn = NULL, *exp = NULL, *e2;
+            LY_ERR rc;
+            int bothq;
+
+            if (!n->schema || (n->schema->flags & LYS_KEY)) {
+                continue;
+            }
+            if ((n->schema->nodetype == LYS_LIST) && (n->schema->flags & LYS_KEYLESS)) {
+                continue;
+            }
+            if ((n->schema->nodetype == LYS_LEAFLIST) && !(n->schema->flags & LYS_CONFIG_W)) {
+                continue;
+            }
+            /* ancestors must be addressable without positions */
+            int skip = 0;
+            for (struct lyd_node *a = lyd_parent(n); a; a = lyd_parent(a)) {
+                if ((a->schema->nodetype == LYS_LIST) && (a->schema->flags & LYS_KEYLESS)) {
+                    skip = 1;
+                }
+            }
+            if (skip) {
+                continue;
+            }
+            p = lyd_path(n, LYD_PATH_STD, NULL, 0);
+            bothq = strchr(p, '\'') && strchr(p, '"');
+            if (n->schema->nodetype & LYD_NODE_TERM) {
+                val = lyd_get_value(n);
+            }
+            rc = lyd_new_path2(NULL, C[c], p, val, val ? strlen(val) : 0, LYD_ANYDATA_STRING, 0, &tree, &nn);
+            if (rc || !tree) {
+                sb_fmt(o, "BAD%s node %ld: lyd_new_path rc=%d path=", bothq ? " both-quotes" : "", idx, (int)rc);
+                sb_hex(o, p, strlen(p));
+                free(p);
+                lyd_free_all(tree);
+                return;
+            }
+            /* expected spine: the node (without children except keys) with its parents */
+            lyd_dup_single(n, NULL, LYD_DUP_WITH_PARENTS, &exp);
+            for (e2 = exp; e2 && lyd_parent(e2); e2 = lyd_parent(e2)) {}
+            if (lyd_compare_siblings(tree, e2, LYD_COMPARE_FULL_RECURSION)) {
+                sb_fmt(o, "BAD node %ld: created chain differs from the node and its ancestors path=", idx);
+                sb_hex(o, p, strlen(p));
+                free(p);
+                lyd_free_all(tree);
+                lyd_free_all(e2);
+                return;
+            }
+            lyd_free_all(e2);
+            /* create again: existing */
+            /* a default-flagged node (empty NP container, default-valued leaf) is updated instead, as documented */
+            if (nn && !(nn->flags & LYD_DEFAULT)) {
+                struct lyd_node *np2 = NULL, *nn2 = NULL;
+
+                rc = lyd_new_path2(tree, C[c], p, val, val ? strlen(val) : 0, LYD_ANYDATA_STRING, 0, &np2, &nn2);
+                if ((rc != LY_EEXIST) || np2 || nn2) {
+                    sb_fmt(o, "BAD node %ld: re-creating an existing node gives rc=%d (LY_EEXIST expected) path=", idx, (int)rc);
+                    sb_hex(o, p, strlen(p));
+                    free(p);
+                    lyd_free_all(tree);
+                    return;
+                }
+            }
+            lyd_free_all(tree);
+            free(p);
+        }
+        sb_str(o, "ok");
     } else if (!strcmp(w[0], "isdflt")) {
         NEED(2);
         struct lyd_node *n = node_at(w[1]);
